@@ -94,6 +94,7 @@ PROPS = {
     },
     "C03": {
         "corr": [("actions", {"quick": 800, "thorough": 20000})],
+        "also": ["C01:model:"],
         "trusted_base": [
             "same model and harness as C01 (ledger model of install/upgrade/rollback/uninstall with a fault plan); containment is monitored on the implementation for every failed operation whose only fault is cluster-side",
         ],
@@ -101,6 +102,7 @@ PROPS = {
     },
     "C06": {
         "corr": [("actions", {"quick": 600, "thorough": 12000}), ("kube", {"quick": 1000, "thorough": 20000})],
+        "also": ["C01:model:", "C02:model:"],
         "trusted_base": [
             "modelled, not verified: helm template's command-line wiring (pkg/cmd/template.go sets DryRun/ClientOnly on action.Install; the harness drives action.Install with those fields), post-renderers and CRD directories (the crash/render sweeps of C05/C20 exercise them without a model); observed: request log of the simulated API server and call log of the recording storage wrapper",
         ],
@@ -115,6 +117,7 @@ PROPS = {
     },
     "C07": {
         "corr": [("kube", {"quick": 1500, "thorough": 40000})],
+        "also": ["C02:model:"],
         "trusted_base": [
             "same cluster model and simulator as C02; the record side (no storage write before the ownership check) is the ledger model's pre-flight phase, tied by the kube sub-command's storage write log",
         ],
